@@ -264,6 +264,7 @@ def confirm_and_write(ctx, P, H, prop_id, sig, o, v, budget_s, seed, tier):
 
 def aggregate(P, prop_id, outcomes):
     fired = collections.Counter()
+    sites = collections.Counter()
     armed = 0
     digests = set()
     nontrivial_digests = set()
@@ -278,6 +279,7 @@ def aggregate(P, prop_id, outcomes):
         runs += o.get("runs", 1)
         for f in o["fired"]:
             fired[f["kind"]] += 1
+            sites[f.get("seam", "?")] += 1
         armed += o.get("armed", 0)
         steps += o.get("steps", 0)
         ops += o.get("ops", 0)
@@ -297,7 +299,7 @@ def aggregate(P, prop_id, outcomes):
         for c in o.get("classes", [])[:400]:
             trans.add((prev, c))
             prev = c
-    return dict(fired=fired, armed=armed, distinct=len(digests),
+    return dict(fired=fired, sites=sites, armed=armed, distinct=len(digests),
                 distinct_nontrivial=len(nontrivial_digests), steps=steps, ops=ops, runs=runs,
                 reach=reach, seams=seams, statuses=statuses, transitions=len(trans), modes=modes)
 
@@ -325,6 +327,7 @@ def build_evidence(P, prop_id, tier, seed, agg, outcomes, cross, known_seen, rep
         "seeds": {"VERIF_SEED": seed, "cases": f"0..{len(outcomes) - 1}",
                   "hash_seeds": list(farm.hashseeds)},
         "faults_fired": dict(agg["fired"]),
+        "fault_sites_reached": dict(agg["sites"]),
         "faults_armed": agg["armed"],
         "reach_probes": dict(agg["reach"]),
         "seam_calls": dict(agg["seams"]),
